@@ -25,6 +25,7 @@ structure InvF (inp : RunInput) (s : Sys) : Prop where
   ok : ∀ n, Ev.success n ∈ s.events → stOf s n = .ok ∧ ∃ deps, Ev.go n deps ∈ s.events
   ud : ∀ n, stOf s n = .utd → effStatus inp n = .utd ∧ ∀ d, DepNS inp n d → (stOf s d).good = true
   st : inp.continue_ = true → s.stop = false
+  fe : ∀ n, stOf s n = .fail → ∃ k, Ev.failure n k ∈ s.events
 
 /-- when `select_task` finds the task up-to-date, all its (non-setup) dependencies are executed / up-to-date -/
 theorem utd_deps_good {inp : RunInput} {s : Sys} {n : Name} {nd : Node} (h : Inv2 inp s) (hg : InvG inp s)
@@ -100,6 +101,7 @@ theorem init_invF (inp : RunInput) : InvF inp (init inp) := by
   · intro n h; simp [init] at h
   · intro n h; simp [init, stOf] at h
   · intro _; rfl
+  · intro n h; simp [init, stOf] at h
 
 theorem quiet_not {new : List Ev} (hq : ∀ e ∈ new, e.quiet = true) :
     (∀ n k, Ev.failure n k ∉ new) ∧ (∀ n, Ev.skipUtd n ∉ new) ∧ (∀ n, Ev.success n ∉ new) := by
@@ -163,6 +165,9 @@ theorem invF_step {inp : RunInput} {s s' : Sys} (h : InvF inp s) (h2 : Inv2 inp 
       refine ⟨(h.ud n hn).1, fun d hd => ?_⟩
       rw [hst]; exact (h.ud n hn).2 d hd
     · intro hc; rw [hstop]; exact h.st hc
+    · intro n hn; rw [hst] at hn
+      obtain ⟨k, hk⟩ := h.fe n hn
+      exact ⟨k, by rw [hev]; exact List.mem_append.mpr (Or.inr hk)⟩
   | select m md extra haw hsusp hn hd hst hev hq hstop =>
     obtain ⟨q1, q2, q3⟩ := quiet_not hq
     obtain ⟨c1, c2, c3⟩ := @selEvents_cases inp m md (selDecision inp m md)
@@ -213,6 +218,18 @@ theorem invF_step {inp : RunInput} {s s' : Sys} (h : InvF inp s) (h2 : Inv2 inp 
         have := (h.ud n hnu).2 d hdn
         rw [keep d (RS.good_finished this)]; exact this
     · intro hc; rw [hstop hc]; exact h.st hc
+    · intro n hn; rw [hst] at hn
+      by_cases e : n = m
+      · subst e
+        simp only [if_true] at hn
+        have : ∃ k, Ev.failure n k ∈ selEvents inp n md (selDecision inp n md) := by
+          cases hdd : selDecision inp n md <;> rw [hdd] at hn <;> simp [selStatus] at hn <;>
+            simp [selEvents]
+        obtain ⟨k, hk⟩ := this
+        exact ⟨k, by rw [hev]; exact List.mem_append.mpr (Or.inr (List.mem_append.mpr (Or.inl hk)))⟩
+      · simp only [e, if_false] at hn
+        obtain ⟨k, hk⟩ := h.fe n hn
+        exact ⟨k, by rw [hev]; exact List.mem_append.mpr (Or.inr (List.mem_append.mpr (Or.inr hk)))⟩
   | result m md mid hn hrun hgo hst hev hq hstop =>
     obtain ⟨q1, q2, q3⟩ := quiet_not hq
     have hunf : (stOf s m).finished = false := by simp [stOf, hn, hrun, RS.finished]
@@ -259,6 +276,17 @@ theorem invF_step {inp : RunInput} {s s' : Sys} (h : InvF inp s) (h2 : Inv2 inp 
         have := (h.ud n hnu).2 d hdn
         rw [keep d (RS.good_finished this)]; exact this
     · intro hc; rw [hstop hc]; exact h.st hc
+    · intro n hn; rw [hst] at hn
+      by_cases e : n = m
+      · subst e
+        simp only [if_true] at hn
+        have : ∃ k, Ev.failure n k ∈ resEvents n (inp.outcome n) := by
+          cases ho : inp.outcome n <;> rw [ho] at hn <;> simp [resStatus] at hn <;> simp [resEvents]
+        obtain ⟨k, hk⟩ := this
+        exact ⟨k, by rw [hev]; exact List.mem_append.mpr (Or.inl hk)⟩
+      · simp only [e, if_false] at hn
+        obtain ⟨k, hk⟩ := h.fe n hn
+        exact ⟨k, by rw [hev]; exact List.mem_append.mpr (Or.inr (List.mem_append.mpr (Or.inr hk)))⟩
 
 theorem reach_invF {inp : RunInput} {s : Sys} (h : Reach inp s) : InvF inp s := by
   induction h with
